@@ -8,30 +8,37 @@ Local Open Scope float_scope.
 Definition fabsdiff (a b : float) : float := PrimFloat.abs (a - b).
 Definition ftol : float := 0x1.b7cdfd9d7bdbbp-34.   (* 1e-10 *)
 
-(* an individual of a case: (id, vector, Python hash of the tuple) *)
-Definition c20_ind : Type := (nat * list float * Z)%type.
+(* an individual of a case: (object token, Individual.id, vector, Python hash of the tuple).
+   The object token numbers the distinct Python objects of the case (what `is` compares).
+   Individual.id (the attribute; may coincide for different objects after from_dict / copy.copy /
+   assignment) is carried for the replay only: the model does not look at it. *)
+Definition c20_ind : Type := (nat * Z * list float * Z)%type.
 
 Inductive c20_op :=
 | OpEq (i j : nat)            (* pool[i] == pool[j] *)
 | OpIn (i : nat) (l : list nat)      (* pool[i] in [pool[k] for k in l] *)
 | OpRemove (i : nat) (l : list nat)  (* list.remove / Archive.remove: resulting ids or ValueError *)
 | OpSet (l : list nat)               (* set([...]): surviving ids, sorted *)
-| OpRepeated (i : nat) (l : list nat). (* any(pool[i] == o for o in ...) *)
+| OpRepeated (i : nat) (l : list nat)  (* any(pool[i] == o for o in ...) *)
+| OpGenerate (N : nat) (pairs : list (nat * nat)).
+   (* GeneticAlgorithm.generate with max_population_size = N on the stream of child pairs
+      (pool indices) that the scripted operators produced: surviving children, unused pairs *)
 
-Inductive c20_obs := ObB (b : bool) | ObL (l : list nat) | ObErr.
+Inductive c20_obs := ObB (b : bool) | ObL (l : list nat) | ObErr | ObG (l : list nat) (left : nat).
 
 Definition c20_obs_eqb (a b : c20_obs) : bool :=
   match a, b with
   | ObB x, ObB y => Bool.eqb x y
   | ObL x, ObL y => if list_eq_dec Nat.eq_dec x y then true else false
   | ObErr, ObErr => true
+  | ObG x n, ObG y m => (if list_eq_dec Nat.eq_dec x y then true else false) && Nat.eqb n m
   | _, _ => false
   end.
 
 Record c20_case := { c20_pool : list c20_ind; c20_op_ : c20_op }.
 
 Definition get (pool : list c20_ind) (i : nat) : indiv (T := float) :=
-  match nth_error pool i with Some (id, v, _) => (id, v) | None => (0%nat, []) end.
+  match nth_error pool i with Some (tok, _, v, _) => (tok, v) | None => (0%nat, []) end.
 (* hash oracle: looked up by vector among the pool (bit-exact vector match) *)
 Fixpoint vec_beq (v w : list float) : bool :=
   match v, w with
@@ -40,7 +47,7 @@ Fixpoint vec_beq (v w : list float) : bool :=
   | _, _ => false
   end.
 Definition hash_of (pool : list c20_ind) (v : list float) : Z :=
-  match find (fun x => vec_beq (snd (fst x)) v) pool with Some (_, _, hz) => hz | None => 0%Z end.
+  match find (fun x => vec_beq (snd (fst x)) v) pool with Some (_, _, _, hz) => hz | None => 0%Z end.
 
 Fixpoint insert_sorted (x : nat) (l : list nat) : list nat :=
   match l with [] => [x] | y :: l' => if Nat.leb x y then x :: l else y :: insert_sorted x l' end.
@@ -57,4 +64,7 @@ Definition c20_run (c : c20_case) : c20_obs :=
                     | Some r => ObL (map fst r) | None => ObErr end
   | OpSet l => ObL (sort_nat (map fst (dedupe PrimFloat.ltb fabsdiff ftol (hash_of pool) (map g l))))
   | OpRepeated i l => ObB (child_repeated PrimFloat.ltb fabsdiff ftol (g i) (map g l))
+  | OpGenerate N pairs =>
+      let '(r, unused) := generate PrimFloat.ltb fabsdiff ftol N (map (fun p => (g (fst p), g (snd p))) pairs) [] in
+      ObG (map fst r) unused
   end.
